@@ -12,12 +12,7 @@ from harness.rvals import to_py, canon, canon_wire
 MISSING_ID = 9999
 
 
-class Unser(object):
-    """a value whose serialisation raises (state holding a module)"""
-
-    def __getstate__(self):
-        import sys
-        return {'m': sys}
+Unser = dyn.Unser
 
 
 class _Return(Exception):
@@ -527,7 +522,7 @@ class Sim(object):
             ctx.outcomes = []
             ctx.depth = 0
             (tr.enable_recording if run['enabled'] else tr.disable_recording)()
-            spy.fail_save = bool(run.get('saveFails', False)) and not run.get('unserRun')
+            spy.fail_save = bool(run.get('saveFails', False))
             log0 = len(spy.log)
             cls = self.classes[run['cls']]
             cspec = self.case['classes'][run['cls']]
@@ -625,7 +620,7 @@ def model_request(case):
     def expr(e):
         if 'c' in e:
             w = e['c']
-            return {'c': 'unser' if isinstance(w, dict) and 'unser' in w else canon_wire(w)}
+            return {'c': '<unser>' if isinstance(w, dict) and 'unser' in w else canon_wire(w)}
         if 't' in e:
             return {'t': [expr(x) for x in e['t']]}
         return e
